@@ -304,6 +304,13 @@ namespace link_layer {
 
                     commit = false;
 
+                    // response to a LL_PHY_REQ send by this link layer
+                    if ( link_layer.phy_update_request_running_ )
+                    {
+                        link_layer.phy_update_request_running_ = false;
+                        link_layer.procedure_timeout_ = delta_time();
+                    }
+
                     if ( c_to_p == phy_ll_encoding::le_unchanged_coding
                       && p_to_c == phy_ll_encoding::le_unchanged_coding )
                     {
@@ -873,6 +880,7 @@ namespace link_layer {
         bool                            connection_parameters_request_running_;
         bool                            connection_parameters_request_use_signaling_channel_;
         bool                            phy_update_request_pending_;
+        bool                            phy_update_request_running_;
         std::uint8_t                    phy_update_request_transmit_;
         std::uint8_t                    phy_update_request_receive_;
         bool                            remote_versions_request_pending_;
@@ -909,6 +917,7 @@ namespace link_layer {
         , connection_parameters_request_pending_( false )
         , connection_parameters_request_running_( false )
         , phy_update_request_pending_( false )
+        , phy_update_request_running_( false )
         , remote_versions_request_pending_( false )
         , version_indication_received_( false )
     {
@@ -966,6 +975,7 @@ namespace link_layer {
                 connection_parameters_request_running_  = false;
                 connection_parameters_request_use_signaling_channel_ = false;
                 phy_update_request_pending_             = false;
+                phy_update_request_running_             = false;
                 pending_event_                          = false;
                 remote_versions_request_pending_        = false;
                 version_indication_received_            = false;
@@ -1318,7 +1328,9 @@ namespace link_layer {
         }
         else if ( phy_update_request_pending_ )
         {
+            procedure_timeout_ = delta_time( default_procedure_timeout_us );
             phy_update_request_pending_ = false;
+            phy_update_request_running_ = true;
 
             fill< layout_t >( out_buffer, {
                 ll_control_pdu_code, 3, LL_PHY_REQ,
@@ -1656,6 +1668,10 @@ namespace link_layer {
                 {
                     procedure_timeout_ = delta_time();
 
+                    // LL_REJECT_IND does not name the rejected request
+                    if ( !opcode_contains_request )
+                        phy_update_request_running_ = false;
+
                     if ( connection_parameters_request_running_ && connection_parameters_request_use_signaling_channel_ )
                     {
                         connection_parameters_request_use_signaling_channel_ = false;
@@ -1673,6 +1689,11 @@ namespace link_layer {
 
                     if ( opcode == LL_UNKNOWN_RSP )
                         used_features_ = used_features_ & ~link_layer_feature::connection_parameters_request_procedure;
+                }
+                else if ( body[ 1 ] == LL_PHY_REQ && phy_update_request_running_ )
+                {
+                    phy_update_request_running_ = false;
+                    procedure_timeout_ = delta_time();
                 }
 
                 if ( opcode != LL_UNKNOWN_RSP )
